@@ -47,6 +47,9 @@ def main(argv=None):
     res = Result(args.prop, args.tier, args.seed, args.shard)
     rng = random.Random(args.seed * 1000 + args.shard)
     mod.run(rng, res, args.tier, args.shard, args.of)
+    from mtv import stream
+    for k, v in stream.STATS.items():
+        res.counters['env:' + k] = res.counters.get('env:' + k, 0) + v
     with open(args.out, 'w') as f:
         json.dump(res.to_json(), f, default=repr)
     return 0
